@@ -285,6 +285,9 @@ Plan gen_plan(int prop, uint64_t runseed) {
         }
     }
     p.k.strict = (corrupt_rate || alloc_rate) ? 0 : 1;
+    // who executes each step (drawn from a generator of its own: the plans of earlier versions are unchanged): in a fifth of the histories a third
+    // of the steps are handed to one of two long-lived helper threads
+    { Rng tr; tr.seed(simrt::mix(runseed, 0x746872, 1)); if (tr.below(5) == 0) for (Op &o : p.ops) if (tr.below(3) == 0) o.thr = (uint8_t)(1 + tr.below(2)); }
     return p;
 }
 
